@@ -150,6 +150,19 @@ theorem C06_multicall (results : List PyVal) (i : Nat) (kvs : List (PyVal × PyV
     simp only [multicallGet, hi]
     exact C06_result_unchanged kvs r henv hr herr
 
+/-- A batch answered with ONE error object (the server rejected the whole batch): the batch call itself
+    raises the exception that error describes; an array reply is the result list unchanged. -/
+theorem C06_batch_single_error (kvs : List (PyVal × PyVal)) (e : PyVal)
+    (henv : envelopeOk kvs = true) (herr : lookupStr "error" kvs = some e) (ht : e.truthy = true) :
+    multicallRun (.dict kvs) = .error (errorOf e) := by
+  have htr := truthy_dict_of_lookup herr
+  simp [multicallRun, htr, C06_error_raises kvs e henv herr ht, bind, Except.bind]
+
+theorem C06_batch_array (xs : List PyVal) (hne : xs ≠ []) : multicallRun (.list xs) = .ok xs := by
+  cases xs with
+  | nil => exact absurd rfl hne
+  | cons _ _ => simp [multicallRun, truthy, pure, Except.pure]
+
 /-- `AppError.data()` returns the `data` member of the error object (or `None`). -/
 theorem C06_appdata (ekvs : List (PyVal × PyVal)) (code : PyVal)
     (hc : lookupStr "code" ekvs = some code) (hp : predefined code = false) :
